@@ -93,8 +93,11 @@ def q_interleavings(shard=None) -> Dict[str, Any]:
         res["queries"] = m.queries
         res["solver_time_s"] = round(m.solver_time, 3)
     except bcmc.Untranslatable as e:
+        # the interleaving model is the core of this property: when the current bytecode cannot be modelled, nothing about
+        # interleavings has been decided - reported as an error (exit 2), never as a pass
         res["inconclusive"] = True
         res["untranslatable"] = str(e)
+        res["error"] = f"bytecode of _generate_request_id is outside the modelled subset ({e}): interleavings NOT decided"
     res["wall_s"] = round(time.perf_counter() - t0, 3)
     res["queries_nontrivial"] = res["unsat"] + res["sat"]
     res["bounds"] = {"threads": T, "calls_per_thread": C}
